@@ -130,7 +130,22 @@ pub fn dhcp_msg_strategy() -> impl Strategy<Value = wire::Msg> {
                 if options.len() >= 2 {
                     let i = pick_idx(d, options.len());
                     let j = (i + 1) % options.len();
-                    options[j].0 = options[i].0;
+                    if d % 3 == 0 && options[i].1.len() < 255 {
+                        // the same code with the same contents once more (a sender may split a
+                        // value anywhere, and halves may be equal)
+                        options[j] = options[i].clone();
+                    } else if d % 3 == 1 && options[i].1.len() < 120 {
+                        // ... and an instance that equals everything sent for the code before it
+                        let mut both = options[i].1.clone();
+                        both.extend_from_slice(&options[i].1);
+                        options[j] = options[i].clone();
+                        let k = (j + 1) % options.len();
+                        if k != i {
+                            options[k] = (options[i].0, both);
+                        }
+                    } else {
+                        options[j].0 = options[i].0;
+                    }
                 }
             }
             wire::Msg {
@@ -964,6 +979,44 @@ pub fn pointer_limit_sweep() -> Vec<dns::Message> {
     v
 }
 
+/// Names of 120..127 labels (127 one-octet labels are the 255 octets a name may have) of which
+/// every suffix occurs earlier as a name of its own, each written after the next shorter one, so
+/// that a compressing encoder writes every name as one label and a pointer: chains of up to 126
+/// pointers.  Then the longest name once more as an owner (a bare pointer: one more hop) and as
+/// a CNAME target inside record data.
+pub fn pointer_chain_sweep() -> Vec<dns::Message> {
+    let mut v = vec![];
+    for labels in 120usize..=127 {
+        for tail in 0..2 {
+            let mut names: Vec<dns::Name> = vec![];
+            let mut cur: dns::Name = vec![];
+            for k in 0..labels {
+                cur.insert(0, vec![b'a' + (k % 26) as u8]);
+                names.push(cur.clone());
+            }
+            let rr = |name: dns::Name, rtype: u16, rdata: dns::RData| dns::Rr { name, rtype, class: 1, ttl: 30, rdata };
+            let mut m = dns::Message {
+                header: dns::Header { id: 0x7f7f, qr: true, rd: true, ra: true, ..Default::default() },
+                questions: vec![dns::Question { name: names[0].clone(), qtype: 1, qclass: 1 }],
+                ..Default::default()
+            };
+            for n in &names {
+                m.answer.push(rr(n.clone(), dns::T_A, dns::RData::Raw(vec![192, 0, 2, 1])));
+            }
+            let longest = names[labels - 1].clone();
+            if tail == 0 {
+                m.authority.push(rr(longest.clone(), dns::T_TXT, dns::RData::Raw(vec![1, b'x'])));
+                m.additional.push(rr(names[0].clone(), dns::T_CNAME, dns::RData::Name(longest)));
+            } else {
+                m.additional.push(rr(names[1].clone(), dns::T_NS, dns::RData::Name(longest.clone())));
+                m.additional.push(rr(longest, dns::T_A, dns::RData::Raw(vec![192, 0, 2, 2])));
+            }
+            v.push(m);
+        }
+    }
+    v
+}
+
 pub fn run_c14_func(ctx: &Ctx) {
     // the committed inputs first (every past failure of this property and of C05 on the DNS
     // decoder, minimised or as found by libFuzzer)
@@ -993,6 +1046,11 @@ pub fn run_c14_func(ctx: &Ctx) {
     };
     // names first written at every offset around 0x4000 and used again afterwards
     run_list(ctx, &C14Structured, pointer_limit_sweep());
+    if !ctx.violations.lock().unwrap().is_empty() {
+        return;
+    }
+    // the longest pointer chains an encoder can write
+    run_list(ctx, &C14Structured, pointer_chain_sweep());
     if !ctx.violations.lock().unwrap().is_empty() {
         return;
     }
